@@ -56,6 +56,18 @@ SYN_STMTS = [
     "let u = unsafe { &*(p as *const dyn Trait) };", "let n = -(-x) + !(!y) - *(&z);", "let m = a..b; let k = ..=c; let j = d..; let i = ..;",
     "let h = move || async move { yield_now().await };", "let g = static_fn::<{ N + 1 }, 'static, u8>();", "let f = r#match + r#type.r#fn();", "let e = 1_000u64 + 0xFF_u8 as u64 + 1e-3_f32 as u64 + 0b1010 + 0o77;",
     "let d = b'a' as char == 'a' && \"s\" == r\"s\" && b\"b\" == br#\"b\"#;", "let c = matches!(x, Some(1 | 2) | None);", "let b = x?.y()?.z?;", "let a = loop { break; };",
+    # block-like expressions in operand position (a cast / method call / ? / operator applied to if, match, unsafe, loop, a plain
+    # block), as a closure body, a call argument and an initialiser: wrapping them in braces or dropping braces changes the parse
+    "let widen = |value: u32| if value > threshold_for_the_big_case { big_value_here } else { small_value_here } as u64;",
+    "consume(values.iter().map(|value| if value > threshold_for_the_big_case { big_value_here } else { small_value_here } as u64));",
+    "let pick = |value| match value { First => first_result_value, Second => second_result_value, _ => other_value }.convert_into();",
+    "let run = move |input| unsafe { perform_the_dangerous_operation(input, another_argument_value) }?.finish_it();",
+    "let looped = || loop { break produce_a_value_for_the_loop(); } as usize + offset_of_the_result;",
+    "let negated = |flag| !if flag { first_branch_value_of_it() } else { second_branch_value_of_it() };",
+    # arm and closure bodies that are blocks which must stay blocks: labelled, unsafe, const, async, with an attribute or a statement
+    "match found { Some(v) => 'found: { if v > limit { break 'found limit } else { v } } None => 'none: { fallback() } }",
+    "match kind { A => unsafe { call_it() }, C => async { wait().await }, D => { #[allow(unused)] value } E => { side_effect(); } F => { value } }",
+    "let labelled = || 'outer: { if ready() { break 'outer 1 } 2 };", "let wrapped = |x| { x };", "let stmt_body = |x| { x; };",
 ]
 SYN_ITEMS = [
     "impl<'a, T: Trait<'a> + ?Sized, U: Other<T, Assoc = u8>> !Marker<'a, T, U> for Container<'a, T, U> {}", "unsafe impl<T: ?Sized + Send> !Sync for Wrapper<T> where T: Copy {}",
